@@ -26,13 +26,14 @@ CORE_ALPHA = ['ID', 'PLUS', 'STAR', 'MINUS', 'EQUALS', 'LESS', 'AND', 'OR', 'NOT
 def worker(args):
     dialect, ctx, K, firsts = args[:4]
     alpha_override = args[4] if len(args) > 4 else None
+    spelling = args[5] if len(args) > 5 else None
     sys.setrecursionlimit(10000)
     from engines.symtok import Explorer, SymToken, representatives
     from engines import sweep as SW
     from refs.precedence import Reader, Skip, Reject, shape_of_ast, normalise
     from mindsdb_sql.parser import ast as A
     L, P = SW.dialect_classes(dialect)
-    rep, _ = representatives(L)
+    rep, _ = representatives(L, spelling)
     terms = set(P._grammar.Terminals)
     prefix, suffix, extract = CONTEXTS[ctx]
     alpha = [t for t in (alpha_override or EXPR_ALPHA) if t in terms]
@@ -83,7 +84,7 @@ def worker(args):
         got = normalise(shape_of_ast(node))
         if got != want:
             st['MISMATCH'] += 1
-            findings.append({'kind': 'grouping', 'dialect': dialect, 'context': ctx, 'expr_types': types,
+            findings.append({'kind': 'grouping', 'dialect': dialect, 'context': ctx, 'expr_types': types, 'spelling': spelling,
                              'all_types': [t.fixed for t in toks], 'parsed': repr(got), 'reference': repr(want)})
         else:
             st['match'] += 1
@@ -97,7 +98,7 @@ def worker(args):
     return out
 
 
-def sweep(dialect, ctx, K, jobs=None, alpha=None):
+def sweep(dialect, ctx, K, jobs=None, alpha=None, spelling=None):
     from engines import sweep as SW
     L, P = SW.dialect_classes(dialect)
     terms = set(P._grammar.Terminals)
@@ -105,7 +106,7 @@ def sweep(dialect, ctx, K, jobs=None, alpha=None):
     jobs = jobs or os.cpu_count()
     shards = [[a] for a in alpha_]
     with mp.get_context('fork').Pool(min(jobs, len(shards))) as pool:
-        res = pool.map(worker, [(dialect, ctx, K, s, alpha) for s in shards])
+        res = pool.map(worker, [(dialect, ctx, K, s, alpha, spelling) for s in shards])
     tot = collections.Counter()
     findings, samples = [], []
     for r in res:
